@@ -135,7 +135,7 @@ func run(repo, dir string, seed uint64, tier string, nprog, nwild int, keep bool
 			addClash(r, p, i, i%4 == 3, out.Count) // colliding field names and struct literals over them
 		}
 		if i%3 != 2 {
-			addShadow(p, i, out.Count) // same names in includer and include, referenced from values of foreign types
+			addShadow(p, i, i%3 == 1, out.Count) // same names in includer and include, referenced from values of foreign types
 		}
 		if i%2 == 0 {
 			addElems(p, i, out.Count) // struct constants as container elements
@@ -194,6 +194,7 @@ func run(repo, dir string, seed uint64, tier string, nprog, nwild int, keep bool
 			out.Sample(map[string]interface{}{"unusable_unit": u.Key, "options": u.Options, "build": first(u.BuildErrors, 3), "exit": u.Exit, "stderr": firstLines(u.Stderr, 3)})
 			fmt.Printf("UNIT %s unusable (C01's business): exit=%d %s %s\n", u.Key, u.Exit, firstLines(u.Stderr, 2), strings.Join(first(u.BuildErrors, 2), " | "))
 			reportInitialiserErrors(out, mod, u, units[i].Prog)
+			reportRejection(out, u, units[i].Prog)
 			if u.Exit == 0 && len(u.ParseErrors) == 0 {
 				// the output parses but does not compile: no values, but the initialiser texts are still compared
 				tu := &unitData{u: u, prog: units[i].Prog, defect: defectOf[i], textOnly: true}
@@ -748,4 +749,34 @@ func reportInitialiserErrors(out *vl.Out, mod string, u *batch.UnitInfo, prog *i
 			Input:    map[string]interface{}{"tag": u.Tag, "options": u.Options, "idl": prog.Render(), "cmd": "thriftgo -r -g go:" + strings.Join(u.Options, ",") + " " + prog.Files[0].Path},
 			Expected: "a Go constant/variable holding the IDL value", Observed: strings.TrimPrefix(m[1], u.Key+"/") + ": " + msg + "  | " + text})
 	}
+}
+
+var pathRe = regexp.MustCompile(`(/[^\s:]+)+/`)
+
+// reportRejection: thriftgo refuses a program that its own front end (run in process) accepts: a constant or
+// default did not resolve. Key = tag, options, the last line of the diagnostic without paths.
+func reportRejection(out *vl.Out, u *batch.UnitInfo, prog *idlgen.Program) {
+	if u.Exit == 0 {
+		return
+	}
+	if fr := runFront(prog); fr.err != nil {
+		return // not a program the front end accepts: not this property's subject
+	}
+	var last string
+	for _, ln := range strings.Split(u.Stderr, "\n") {
+		ln = strings.TrimSpace(ln)
+		if ln != "" && !strings.HasPrefix(ln, "[WARN]") && !strings.HasPrefix(ln, "goroutine") && !strings.HasPrefix(ln, "/") && !strings.HasPrefix(ln, "runtime") {
+			last = ln
+		}
+	}
+	if i := strings.Index(last, ", stack ="); i > 0 {
+		last = last[:i]
+	}
+	last = pathRe.ReplaceAllString(last, "")
+	key := "rejected:" + u.Tag + ":" + strings.Join(u.Options, ",") + ":" + last
+	fmt.Printf("ORACLE FAIL [%s %s] thriftgo rejects a program its front end accepts (exit %d): %s\n", u.Key, strings.Join(u.Options, ","), u.Exit, last)
+	out.Count("rejected_unit")
+	out.Fail(vl.OracleFail{Key: key, What: "thriftgo rejects an IDL program whose constants and defaults are valid",
+		Input:    map[string]interface{}{"tag": u.Tag, "options": u.Options, "idl": prog.Render(), "cmd": "thriftgo -r -g go:" + strings.Join(u.Options, ",") + " " + prog.Files[0].Path},
+		Expected: "exit 0 and a Go constant/variable per IDL constant", Observed: fmt.Sprintf("exit %d: %s", u.Exit, last)})
 }
